@@ -240,3 +240,23 @@ def calc_replay(run, path, spec="TraceCalc.tla"):
     run.traces = 1
     run.samples += vk.sample_events(r["path"], 2)
     return vk.finish(run, rule="replay of one recorded case on the current /repo")
+
+
+@pipeline("C12")
+def pars_family(run, replay):
+    run.build_harness()
+    q, t, mq, mt = CALC_BOUNDS["C12"]
+    n, maxtips = (q, mq) if run.tier == "quick" else (t, mt)
+    if replay:
+        return calc_replay(run, replay)
+    import models
+    models.pars_model(run)
+    calc_random(run, "C12", n, maxtips)
+    return vk.finish(run,
+                     rule="model: every tree of the bound x every tip assignment (state sets when ambiguous) through the transcribed "
+                          "passes of ParsModel.tla, design theorems as invariants, every initial state replayed on acr.ParsimonyAcr (three "
+                          "algorithms) and asr.ParsimonyAsr; real code: seeded random multifurcating trees, 2-4 states, alignments of 1-4 "
+                          "sites with and without IUPAC codes; each recorded reconstruction is one TLC step judged against the Sankoff "
+                          "minimum and the MPR sets (ParsProps)",
+                     assumptions=["gotree getters and node comments (where the reconstruction is written) are trusted",
+                                  "the harness' IUPAC table is an input convention", "TLC, CommunityModules, goalign's alignment container"])
